@@ -12,7 +12,7 @@
      shard     lengths of the first segment handled by this TLC process
      maxops    maximal number of CIGAR operations    (thorough 3, quick 2)
      unnamed   lengths up to which E lines are also enumerated without a name
-     kinds     which case kinds this process enumerates ("L","C","E","P","O","X")
+     kinds     which case kinds this process enumerates ("L","C","E","P","O","X","H")
      rot       rotations of the CIGAR choice used by path documents            *)
 EXTENDS Convert, Json, IOUtils, TLC
 
@@ -173,6 +173,72 @@ OCases(dummy) ==
         /\ (t[6] = (t[3] = "d"))}}
 
 -----------------------------------------------------------------------------
+(* hairpin documents (kind "H").  A hairpin link `L A o A Inv(o)` and its
+   complement join the same oriented segments: which of the two a path reads
+   is said by the overlap alone.  One or two paths traverse the hairpin, each
+   stating the overlap as the link is written ("w"), as its complement ("c")
+   or not at all ("s"); the P lines stand after the L lines, before them, or
+   around them (the references are then resolved through a virtual link);
+   the hairpin alone or inside a longer walk X+ A A X-.  GFA2: the E line in
+   each of its four forms, traversed "+", "-" or implied, O before or after E. *)
+C1M == <<[n |-> 1, c |-> "M"]>>
+HCigs == << <<[n |-> 2, c |-> "M"], [n |-> 1, c |-> "I"]>>,
+            <<[n |-> 1, c |-> "M"], [n |-> 1, c |-> "D"], [n |-> 1, c |-> "M"]>>,
+            <<[n |-> 2, c |-> "M"]>> >>
+         \o (IF MaxOps >= 3 THEN << <<[n |-> 1, c |-> "I"], [n |-> 1, c |-> "M"], [n |-> 1, c |-> "D"]>>,
+                                    <<[n |-> 2, c |-> "D"], [n |-> 1, c |-> "M"]>> >> ELSE <<>>)
+HLink(o, cg) == G1("L", "A", o, "A", Inv(o), cg, FALSE, 0)
+XLink(o) == G1("L", "X", "+", "A", o, C1M, FALSE, 0)
+HWalk(o, emb) == IF emb THEN W(<<<<"X", "+">>, <<"A", o>>, <<"A", Inv(o)>>, <<"X", "-">>>>)
+                 ELSE W(<<<<"A", o>>, <<"A", Inv(o)>>>>)
+HStep(emb) == IF emb THEN 2 ELSE 1                      \* the step served by the hairpin
+WalkText(w, sep) == Join([i \in DOMAIN w |-> w[i].id \o w[i].o], sep)
+HOv(cg, how) == CASE how = "w" -> CigText(cg) [] how = "c" -> CigText(Complement(cg)) [] OTHER -> "*"
+HPLine(name, o, cg, emb, how) ==
+  <<"P", name, WalkText(HWalk(o, emb), ","),
+    IF how = "s" \/ ~emb THEN HOv(cg, how) ELSE "1M," \o HOv(cg, how) \o ",1M">>
+HSeg1(emb) == <<S1Line("A", 4, TRUE)>> \o (IF emb THEN <<S1Line("X", 5, FALSE)>> ELSE <<>>)
+HSeg2(emb) == <<S2Line("A", 4, TRUE)>> \o (IF emb THEN <<S2Line("X", 5, FALSE)>> ELSE <<>>)
+HLinks1(o, cg, emb, named) ==
+  (IF emb THEN <<G1Line(XLink(o), IF named THEN "l1" ELSE "")>> ELSE <<>>)
+  \o <<G1Line(HLink(o, cg), IF named THEN "hp" ELSE "")>>
+\* hows: overlaps of the paths p, q (one or two); ord: "LP" links first, "PL" paths first,
+\* "PLQ" the links between the two paths
+HDoc1(o, cg, emb, named, hows, ord) ==
+  LET ps == [i \in DOMAIN hows |-> HPLine(IF i = 1 THEN "p" ELSE "q", o, cg, emb, hows[i])]
+      ls == HLinks1(o, cg, emb, named) IN
+  HSeg1(emb) \o (CASE ord = "LP" -> ls \o ps [] ord = "PL" -> ps \o ls [] OTHER -> <<ps[1]>> \o ls \o Tail(ps))
+HHows == {<<a>> : a \in {"w", "c", "s"}} \cup {<<a, b>> : a \in {"w", "c", "s"}, b \in {"w", "c", "s"}}
+H1Cases(dummy) ==
+  {[k |-> "H", ver |-> "gfa1", lf |-> 0, lt |-> 0,
+    x |-> [o |-> o, cg |-> HCigs[ci], emb |-> emb, hows |-> hows, form |-> 0, sg |-> ""],
+    lines |-> HDoc1(o, HCigs[ci], emb, named, hows, ord)] :
+   <<o, ci, emb, named, hows, ord>> \in
+     {t \in Ori \X (DOMAIN HCigs) \X BOOLEAN \X BOOLEAN \X HHows \X {"LP", "PL", "PLQ"} :
+        t[6] = "PLQ" => Len(t[5]) = 2}}
+
+HForm(g, f) == CASE f = 1 -> F1(g) [] f = 2 -> F2(g) [] f = 3 -> F3(g) [] OTHER -> F4(g)
+HEdge(o, cg, f) == HForm(LinkToEdge(HLink(o, cg), 4, 4), f)
+HOLine(o, emb, sg) ==
+  LET w == HWalk(o, emb)
+      segtxt == [i \in DOMAIN w |-> w[i].id \o w[i].o] IN
+  <<"O", "p", Join(IF sg = "" THEN segtxt
+                   ELSE IF emb THEN PathToOrdered(segtxt, <<"l1+", "hp" \o sg, "l1-">>)
+                   ELSE PathToOrdered(segtxt, <<"hp" \o sg>>), " ")>>
+HDoc2(o, cg, emb, named, f, sg, ofirst) ==
+  LET es == (IF emb THEN <<ELine(LinkToEdge(XLink(o), 5, 4), IF named THEN "l1" ELSE "")>> ELSE <<>>)
+            \o <<ELine(HEdge(o, cg, f), IF named THEN "hp" ELSE "")>>
+      ol == <<HOLine(o, emb, sg)>> IN
+  HSeg2(emb) \o (IF ofirst THEN ol \o es ELSE es \o ol)
+H2Cases(dummy) ==
+  {[k |-> "H", ver |-> "gfa2", lf |-> 0, lt |-> 0,
+    x |-> [o |-> o, cg |-> HCigs[ci], emb |-> emb, hows |-> <<>>, form |-> f, sg |-> sg],
+    lines |-> HDoc2(o, HCigs[ci], emb, named, f, sg, ofirst)] :
+   <<o, ci, emb, named, f, sg, ofirst>> \in
+     {t \in Ori \X (DOMAIN HCigs) \X BOOLEAN \X BOOLEAN \X (1..4) \X {"+", "-", ""} \X BOOLEAN :
+        t[6] # "" => t[4]}}
+
+-----------------------------------------------------------------------------
 (* fixed catalogue: headers, tags, records without counterpart, traces,
    identifiers that look like integers (fresh edge identifiers) *)
 XDocs == <<
@@ -216,6 +282,7 @@ Init == \/ "L" \in Kinds /\ c \in LCases(0)
         \/ "P" \in Kinds /\ c \in PCases(0)
         \/ "O" \in Kinds /\ c \in OCases(0)
         \/ "X" \in Kinds /\ c \in XCases(0)
+        \/ "H" \in Kinds /\ (c \in H1Cases(0) \/ c \in H2Cases(0))
 Next == FALSE /\ UNCHANGED c
 Spec == Init /\ [][Next]_c
 
@@ -282,5 +349,36 @@ LawPaths == c.k \in {"P", "O"} =>
     /\ EdgeCarries(e.g, sa, sb, e.s)
     /\ EquivE(e.g, LinkToEdge(l, PLen(sa.id), PLen(sb.id)))
 
-Laws == LawGfa1 /\ LawGfa2 /\ LawForms /\ LawPaths
+\* reading direction.  Traversing a link with "-" is reading its complement;
+\* on a hairpin both signs serve the step, and the overlap a path states picks
+\* exactly one of them unless the CIGAR is its own complement; the four forms
+\* of the E line, traversed with the sign that belongs to the form, read the
+\* same alignment, and the other sign reads the complement.
+LawReading == c.k = "H" =>
+  LET l == HLink(c.x.o, c.x.cg)
+      w == HWalk(c.x.o, c.x.emb)
+      sa == w[HStep(c.x.emb)]
+      sb == w[HStep(c.x.emb) + 1]
+      selfc == Complement(c.x.cg) = c.x.cg
+      OvOf(how) == IF how = "c" THEN Complement(c.x.cg) ELSE c.x.cg IN
+  /\ Hairpin(l) /\ Hairpin(ComplLink(l)) /\ ComplLink(ComplLink(l)) = l
+  /\ \A hasov \in BOOLEAN, ov \in {c.x.cg, Complement(c.x.cg)} :
+        /\ LinkReads(l, "-", sa, sb, hasov, ov) <=> LinkCompl(l, sa, sb, hasov, ov)
+        /\ LinkReads(l, "+", sa, sb, hasov, ov) <=> LinkDirect(l, sa, sb, hasov, ov)
+  /\ StepSigns(l, sa, sb, FALSE, <<>>) = {"+", "-"}
+  /\ LinkReadOvs(l, "", sa, sb) = {c.x.cg, Complement(c.x.cg)}
+  /\ \A i \in DOMAIN c.x.hows :
+        StepSigns(l, sa, sb, c.x.hows[i] # "s", OvOf(c.x.hows[i])) =
+          (CASE c.x.hows[i] = "s" -> {"+", "-"}
+             [] c.x.hows[i] = "w" -> IF selfc THEN {"+", "-"} ELSE {"+"}
+             [] OTHER -> IF selfc THEN {"+", "-"} ELSE {"-"})
+  /\ c.x.form # 0 =>
+        LET g == HEdge(c.x.o, c.x.cg, c.x.form)
+            own == IF c.x.form \in {1, 2} THEN "+" ELSE "-" IN
+        /\ EdgeCarries(g, sa, sb, "+") /\ EdgeCarries(g, sa, sb, "-")
+        /\ EdgeReadOvs(g, own, sa, sb) = {c.x.cg}
+        /\ EdgeReadOvs(g, Inv(own), sa, sb) = {Complement(c.x.cg)}
+        /\ EdgeReadOvs(g, "", sa, sb) = {c.x.cg, Complement(c.x.cg)}
+
+Laws == LawGfa1 /\ LawGfa2 /\ LawForms /\ LawPaths /\ LawReading
 =============================================================================
